@@ -112,6 +112,10 @@ SCENARIOS = [
 # ties between the function bodies translated from the Rust source on every run (Gen/Fns.lean) and the hand-written models
 THEOREM_MODULES.append("Yarel.Props.FnsTie.Index")
 REQUIRED_THEOREMS += ['range_iter_new_tie', 'range_iter_next_tie', 'vec_iter_next_tie', 'tuple_iter_next_same']
+# `for` as compiled (Props/FnsTie/Statements, body of Parser::for_statement as read on this run): iter() invoked once with no arguments, then per
+# pass IterNext / store into the loop variable / leave on the stop marker / pop / body in its own scope / jump back to the IterNext
+THEOREM_MODULES.append("Yarel.Props.FnsTie.Statements")
+REQUIRED_THEOREMS += ["for_statement_skeleton", "for_statement_needs_a_name", "for_protocol_order", "break_statement_skeleton", "continue_statement_skeleton"]
 
 
 def canon_item(s):
